@@ -1814,9 +1814,10 @@ public:
   ConstProp(SymbolTable &symbolTable) :
     AstVisitor(true, true, true), symbolTable(symbolTable) {}
   void visitPost(ValDecl &decl) {
-    if (decl.getExpr()->isConst()) {
-      decl.setValue(decl.getExpr()->getValue());
+    if (!decl.getExpr()->isConst()) {
+      throw Error(decl.getLocation(), "val " + decl.getName() + " is not a constant");
     }
+    decl.setValue(decl.getExpr()->getValue());
   }
   void visitPost(BinaryOpExpr &expr) {
     auto &LHS = expr.getLHS();
